@@ -270,6 +270,18 @@ func randomGraph(c *Config, maxNodes int, acyclicBias bool) []op {
 			ts = append(ts, t)
 		}
 		sort.Ints(ts)
+		// half of the rounds add edges to the nodes that lost one BEFORE they are re-indexed
+		// (Pipeline.resolve does RemoveEdge, AddEdge, RemoveEdge, ReindexNode): the new edge takes
+		// rank len+1, which may collide with a surviving rank until ReindexNode repairs it
+		if r.Intn(2) == 0 {
+			for j := 1 + r.Intn(3); j > 0; j-- {
+				a, b := ts[r.Intn(len(ts))], r.Intn(n)
+				if !have[e{a, b}] {
+					have[e{a, b}] = true
+					ops = append(ops, op{kind: "addedge", a: a, b: b})
+				}
+			}
+		}
 		for _, t := range ts {
 			ops = append(ops, op{kind: "reindex", a: t})
 		}
